@@ -1210,6 +1210,12 @@ class FoldConstantsPass(ir.passes.InPlacePass):
                 self._modified = True
                 # TODO(rama): consider merging type/other info from both values
 
+        if any(attr.is_ref() for attr in node.attributes.values()):
+            # Inside a function body an attribute may be a reference to an attribute of the
+            # function: its value is only known at the call site, so the node can neither be
+            # evaluated nor simplified here.
+            return None
+
         # Propagate const_value, and manually find out shape and type
         # to avoid potentially expensive shape inference on large tensors.
         if _is_onnx_op(node, "Constant"):
